@@ -21,7 +21,8 @@ fn v(oracle: &str, observed: String) -> Option<Violation> {
 
 fn first_panic(run: &BuildRun) -> Option<(usize, String)> {
     run.results.iter().enumerate().find_map(|(i, r)| match r {
-        Res::Panic(m) => Some((i, m.clone())),
+        // (a panic of the caller's own key source is the caller's, not the library's)
+        Res::Panic(m) if !m.contains(crate::front::CALLER_PANIC) => Some((i, m.clone())),
         _ => None,
     })
 }
